@@ -257,3 +257,22 @@ def constructive(rng, case, idx):
                                                'kw': bad, 'infeasible': kind},
                  lambda: C.create_solution(solutes if n > 1 else s0, solvent_obj, None, **bad),
                  expect={'op': 'Container.create_solution', 'must': 'refuse', 'tag': kind})
+
+
+# --------------------------------------------------------------------------------------------------
+# directed edge workloads shared between several checks (pv/edges.py)
+
+_plan_without_edges, _run_job_without_edges = plan, run_job
+
+
+def plan(tier, seed):
+    from .common import edges_jobs
+    return _plan_without_edges(tier, seed) + edges_jobs(tier)
+
+
+def run_job(job):
+    if job['kind'] == 'edges':
+        from pv.edges import edges
+        from .common import run_cases
+        return run_cases(job, edges)
+    return _run_job_without_edges(job)
